@@ -83,9 +83,15 @@ CandidateSound(c, st, w, cand) ==
          /\ PossibleSubcommand(c, cand.value, st.valid).some
     [] OTHER -> TRUE
 
-\* hidden candidates only when nothing visible is offered
-HiddenOnlyIfNothingVisible(cands) ==
-  (\E i \in 1..Len(cands) : ~cands[i].hidden) => \A i \in 1..Len(cands) : ~cands[i].hidden
+\* hidden candidates only when nothing visible is offered; what is hidden is read off the definition:
+\* a hidden argument, a hidden alias (Arg::alias / Command::alias), a hidden subcommand
+DeclaredHidden(c, cand) ==
+  CASE cand.k = "arg" -> HasArg(c, cand.id) /\ (ArgOf(c, cand.id).hide \/ \E i \in 1..Len(ArgOf(c, cand.id).aliases) : cand.value = DD \o ArgOf(c, cand.id).aliases[i])
+    [] cand.k = "command" -> LET si == FindSubcommand(c, cand.value) IN
+                             si # 0 /\ ~SubView(c)[si].auto /\ (c.subs[SubView(c)[si].i].hide \/ cand.value # SubView(c)[si].name)
+    [] OTHER -> cand.hidden
+HiddenOnlyIfNothingVisible(c, cands) ==
+  (\E i \in 1..Len(cands) : ~DeclaredHidden(c, cands[i])) => \A i \in 1..Len(cands) : ~DeclaredHidden(c, cands[i])
 
 \* ---- C18 on one observation: obs = [panicked, err, cands] ------------------------------------------
 P18(def, words, i, obs) ==
@@ -97,5 +103,5 @@ P18(def, words, i, obs) ==
      /\ (NewArgMayStart(p) =>
            /\ \A j \in 1..Len(obs.cands) : CandidateSound(p.c, p.st, w, obs.cands[j])
            /\ MustIds(p.c, p.st, w) \subseteq represented
-           /\ HiddenOnlyIfNothingVisible(obs.cands))
+           /\ HiddenOnlyIfNothingVisible(p.c, obs.cands))
 =============================================================================
